@@ -26,3 +26,12 @@ def optLmapPV : Option LMap → PV
 def LMap.KeysNodup (m : LMap) : Prop := (m.map (·.1)).Nodup
 
 end Dsw.Tie
+
+namespace Dsw.Tie
+open Dsw Dsw.Py
+
+/-- a score table as the two-dimensional NumPy integer array the code returns. -/
+def scoresPV (sc : Array (Array Nat)) : PV :=
+  .arr (sc.toList.map fun r => .arr (r.toList.map fun (x : Nat) => .int (x : Int)))
+
+end Dsw.Tie
